@@ -476,6 +476,18 @@ func genSquare(rng *Rng, fam string, n int) []float64 {
 		for i := range a {
 			a[i] = float64(rng.Range(-3, 3))
 		}
+	case "tie": // equal magnitudes in every column (pivot ties), non-singular (checked in float arithmetic)
+		for try := 0; try < 40; try++ {
+			for i := range a {
+				a[i] = float64(1+rng.Intn(2)) * float64(1-2*rng.Intn(2))
+				if rng.Intn(5) == 0 {
+					a[i] *= 1.5
+				}
+			}
+			if math.Abs(luDet(a, n)) > 0.5 {
+				break
+			}
+		}
 	case "notpd":
 		for i := range a {
 			a[i] = dy(rng, 4, 1)
@@ -488,6 +500,36 @@ func genSquare(rng *Rng, fam string, n int) []float64 {
 		a[(n-1)*n+(n-1)] = -1
 	}
 	return a
+}
+// determinant by Gaussian elimination with partial pivoting (generator-side only)
+func luDet(a0 []float64, n int) float64 {
+	a := append([]float64{}, a0...)
+	det := 1.0
+	for i := 0; i < n; i++ {
+		p := i
+		for j := i + 1; j < n; j++ {
+			if math.Abs(a[j*n+i]) > math.Abs(a[p*n+i]) {
+				p = j
+			}
+		}
+		if a[p*n+i] == 0 {
+			return 0
+		}
+		if p != i {
+			for k := 0; k < n; k++ {
+				a[i*n+k], a[p*n+k] = a[p*n+k], a[i*n+k]
+			}
+			det = -det
+		}
+		det *= a[i*n+i]
+		for j := i + 1; j < n; j++ {
+			c := a[j*n+i] / a[i*n+i]
+			for k := i; k < n; k++ {
+				a[j*n+k] -= c * a[i*n+k]
+			}
+		}
+	}
+	return det
 }
 func genVec(rng *Rng, n int) []float64 {
 	v := make([]float64, n)
@@ -546,11 +588,11 @@ func familiesFor(p int) []string {
 	case PBacksub, PInvUT, PGJUT:
 		return []string{"ut", "ut", "dd"}
 	case PDet:
-		return []string{"dd", "rand", "int", "piv"}
+		return []string{"dd", "rand", "int", "piv", "tie"}
 	case PDetPD, PInvPD, PChol, PLdl, PLogDetPD:
 		return []string{"spd", "spd", "spdrand", "notpd"}
 	case PInv, PGJ:
-		return []string{"dd", "rand", "piv", "piv", "int"}
+		return []string{"dd", "rand", "piv", "tie", "tie", "int"}
 	case PMdotM:
 		return []string{"rand", "int"}
 	case PHess:
@@ -759,6 +801,8 @@ func writeCase(rn *runner, c *Case) {
 		rn.eqCase(c)
 	case "Jac", "Hes":
 		rn.helperCase(c)
+	case "R": // InSitu reuse: decided by the implementation-level oracle (--extra hunt) only
+		rn.w.Count("R:handed to the oracle")
 	default:
 		Die("unknown case kind %q", c.Kind)
 	}
